@@ -7,6 +7,7 @@
 package main
 
 import (
+	"text/template/parse"
 	"crypto/sha256"
 	"fmt"
 	"go/ast"
@@ -836,6 +837,75 @@ func extractMarkers(fset *token.FileSet, root string) (map[string]string, map[st
 	return consts, factory
 }
 
+
+// extractTemplate: templates/validation.go.tmpl as a flat, whitespace-normalised token list — text between actions with
+// every run of white space collapsed, `{{pipeline}}` for actions, `{{if …}}` / `{{range …}}` / `{{else}}` / `{{end}}` for the
+// control structure (trim markers only affect white space and disappear). Lean compares the list with the statement
+// forms the hand-written model of the template assumes (Gvlean/Gen/Template.lean); any node kind not listed is refused.
+func extractTemplate(root string) []string {
+	path := filepath.Join(root, "internal/analyzers/govalid/templates/validation.go.tmpl")
+	src, err := os.ReadFile(path)
+	if err != nil {
+		fail(nil, nil, "template: %v", err)
+		return nil
+	}
+	t := parse.New("validation")
+	t.Mode = parse.SkipFuncCheck
+	tree, err := t.Parse(string(src), "", "", map[string]*parse.Tree{})
+	if err != nil {
+		fail(nil, nil, "template does not parse: %v", err)
+		return nil
+	}
+	var out []string
+	var walk func(n parse.Node)
+	walk = func(n parse.Node) {
+		switch n := n.(type) {
+		case nil:
+		case *parse.ListNode:
+			if n == nil {
+				return
+			}
+			for _, c := range n.Nodes {
+				walk(c)
+			}
+		case *parse.TextNode:
+			if f := strings.Join(strings.Fields(string(n.Text)), " "); f != "" {
+				out = append(out, f)
+			}
+		case *parse.ActionNode:
+			out = append(out, "{{"+n.Pipe.String()+"}}")
+		case *parse.IfNode:
+			out = append(out, "{{if "+n.Pipe.String()+"}}")
+			walk(n.List)
+			if n.ElseList != nil {
+				out = append(out, "{{else}}")
+				walk(n.ElseList)
+			}
+			out = append(out, "{{end}}")
+		case *parse.RangeNode:
+			out = append(out, "{{range "+n.Pipe.String()+"}}")
+			walk(n.List)
+			if n.ElseList != nil {
+				out = append(out, "{{else}}")
+				walk(n.ElseList)
+			}
+			out = append(out, "{{end}}")
+		case *parse.CommentNode:
+		default:
+			fail(nil, nil, "template: node kind %T (%s) is outside the modelled template language", n, n.String())
+		}
+	}
+	walk(tree.Root)
+	for _, tok := range out {
+		for _, r := range tok {
+			if r < 0x20 || r > 0x7e {
+				fail(nil, nil, "template: non-ASCII or control character in token %q", tok)
+			}
+		}
+	}
+	return out
+}
+
 func main() {
 	if len(os.Args) != 3 {
 		fmt.Fprintln(os.Stderr, "usage: rulefacts <repo root> <out.lean>")
@@ -915,7 +985,13 @@ func main() {
 	for _, r := range rules {
 		infos = append(infos, "info_"+r.name)
 	}
-	fmt.Fprintf(&sb, "\ndef allRules : List RuleInfo := [%s]\n\nend Facts\n", strings.Join(infos, ", "))
+	fmt.Fprintf(&sb, "\ndef allRules : List RuleInfo := [%s]\n", strings.Join(infos, ", "))
+	tmpl := extractTemplate(root)
+	var tl []string
+	for _, tok := range tmpl {
+		tl = append(tl, "  "+lq(tok))
+	}
+	fmt.Fprintf(&sb, "\n/-- templates/validation.go.tmpl as a flat token list (text with white space collapsed; actions and control structure verbatim) -/\ndef tmplTokens : List String := [\n%s\n]\n\nend Facts\n", strings.Join(tl, ",\n"))
 	if len(errs) > 0 {
 		for _, e := range errs {
 			fmt.Fprintln(os.Stderr, "rulefacts:", e)
